@@ -126,6 +126,14 @@ def step (s : St) (toks : List String) : St × String :=
     match (lookup [a] "a").bind acct?, lookupNat [id] "id", coin? c with
     | some a, some id, some c => res s (burn s a id c)
     | _, _, _ => (s, "bad-op")
+  | ["l2issue", a, c] =>
+    match (lookup [a] "a").bind acct?, coin? c with
+    | some a, some c => res s (l2Issue s a c)
+    | _, _ => (s, "bad-op")
+  | ["l2burn", a, c] =>
+    match (lookup [a] "a").bind acct?, coin? c with
+    | some a, some c => res s (l2Burn s a c)
+    | _, _ => (s, "bad-op")
   | ["swap", a, id, ps] =>
     match (lookup [a] "a").bind acct?, lookupNat [id] "id", pairs? ps with
     | some a, some id, some ps => res s (swap s a id ps)
